@@ -15,7 +15,7 @@ import re
 import featlib
 from featlib import Check, render, walk, children
 import ikinds
-from ikinds import (Contracts, FnKinds, FunctionIndex, Lin, Rng, Top, strip, _subscript, coverage, frames_key)
+from ikinds import (Contracts, FnKinds, FunctionIndex, Lin, Rng, Top, strip, _subscript, _is_incdec, coverage, frames_key, elsewhere)
 
 GEO = featlib.repo_path("kernel/geometry/")
 FILES = GEO + r"(patch_|parti_|mesh_node|intern/patch_index)|" + featlib.repo_path("kernel/adjacency/graph.hpp")
@@ -167,6 +167,19 @@ def seed(fk):
     if re.search(r"PatchIndexMappingHelper$", cls) and fn.name == "apply":
         fk.unify(Lin.atom("Par(tsc)"), Lin.atom("Dom(isi)"), "tsc: cell target set of the patch into the base mesh; isi: base-mesh index set of these cells")
         fk.unify(Lin.atom("Dom(iso)"), Lin.atom("N(tsc)"), "iso: index set of the patch mesh, one tuple per patch cell")
+
+
+C12NAMES = ("build", "clear", "size", "get_num_entities", "reserve", "push_back", "_has_face_rank", "fill")
+
+
+def vob(ck, fk, keys, rule, key, ok, detail, file=None, line=None, **kw):
+    """obligation whose failure may be a MISSING effect: not evaluable when an unmodelled callee / helper / lambda could provide it"""
+    if not ok:
+        why = elsewhere(fk, keys, names=C12NAMES)
+        if why:
+            ck.incomplete(rule, "%s: %s -- but %s" % (key, detail[:200], why))
+            return False
+    return ck.ob(rule, key, ok, detail, file, line, **kw)
 
 
 def short(fn):
@@ -387,7 +400,7 @@ def rule_monotone(w):
                 clr = [e for e in fk.events if e.kind == "call" and e.name == "clear" and e.obj == key and not e.frames]
                 if not clr or (pushes and clr[0].seq > pushes[0].seq):
                     problems.append("%s is not cleared before it is rebuilt" % key)
-            ck.ob("E2.monotone-push", "%s/%s" % (short(fn), key), not problems, "; ".join(problems) if problems else
+            vob(ck, fk, (key,), "E2.monotone-push", "%s/%s" % (short(fn), key), not problems, "; ".join(problems) if problems else
                   "%s receives the ascending loop variable by a single push_back: strictly ascending by construction" % key, fn.file, pushes[0].node.get("l") if pushes else fn.line)
 
 
@@ -423,7 +436,7 @@ def rule_parti(w):
             if ok is None:
                 ck.incomplete("E2.parti-coverage", "%s: %s" % (name, detail))
             else:
-                ck.ob("E2.parti-coverage", "%s/%s" % (name, key), ok, detail, fn.file, fn.line)
+                vob(ck, fk, (key, "graph"), "E2.parti-coverage", "%s/%s" % (name, key), ok, detail, fn.file, fn.line)
         ident = [e for e in fk.events if e.kind == "sub" and e.mode == "write" and e.arr.key == "graph._image_idx"]
         okid = len(ident) == 1 and ident[0].val_canon == ident[0].idx_canon
         ck.ob("E2.parti-coverage", name + "/identity", okid, "element indices are stored as the identity idx[i] = i (each element exactly once)" if okid else
@@ -504,12 +517,17 @@ def rule_parti(w):
     for fn in fns:
         fk = w.fk(fn)
         name = short(fn)
-        ok, detail = coverage(fk, "graph._domain_ptr", base_frames=tuple([e for e in fk.events if e.kind == "construct" and e.obj == "graph"][0].frames) if
-                              [e for e in fk.events if e.kind == "construct" and e.obj == "graph"] else ())
+        wr = [e for e in fk.events if e.kind == "sub" and e.mode == "write" and e.arr is not None and e.arr.key == "graph._domain_ptr"]
+        base = []
+        for f in (wr[0].frames if wr else []):
+            if f.kind == "loop":
+                break
+            base.append(f)
+        ok, detail = coverage(fk, "graph._domain_ptr", base_frames=tuple(base))
         if ok is None:
             ck.incomplete("E2.parti-coverage", "%s: %s" % (name, detail))
         else:
-            ck.ob("E2.parti-coverage", name + "/graph._domain_ptr", ok, detail, fn.file, fn.line)
+            vob(ck, fk, ("graph._domain_ptr", "graph"), "E2.parti-coverage", name + "/graph._domain_ptr", ok, detail, fn.file, fn.line)
         # sender and receiver branch exchange the same amounts, into arrays of at least that length, and build the same graph
         bc = [e for e in fk.events if e.kind == "call" and e.name == "bcast"]
         by = {}
@@ -707,17 +725,18 @@ def rule_parti_level(w):
                 others = [e for e in fk.events if e.kind == "scalar" and e.var == incs[0].var and e is not incs[0]]
                 if p0 == Lin.const(0) and not others:
                     power = incs[0].var
-        lvl = [e for e in fk.events if e.kind == "field" and e.key == "this._ref_lvl" and e.node.get("k") == "Assign" and not e.frames]
+        lvl = [e for e in fk.events if e.kind == "field" and e.key == "this._ref_lvl" and e.node.get("k") == "Assign" and all(f.kind == "if" for f in e.frames)]
         re_set = [e for e in fk.events if e.kind == "field" and e.key == "this._ref_elems" and e.node.get("k") == "Assign"]
         ref_fac = None
         base_ok = False
         for e in re_set:
-            if e.get("op") == "*=" and e.frames and len(e.frames) == 1 and e.frames[0].kind == "loop" and e.frames[0].loop is not None \
-                    and e.frames[0].loop.kind == "range" and e.frames[0].loop.lo == 0 and e.frames[0].loop.hi is not None \
-                    and fk.norm(e.frames[0].loop.hi) == fk.norm(Lin.atom("this._ref_lvl")):
+            lfr = [f for f in e.frames if f.kind == "loop"]
+            if e.get("op") == "*=" and len(lfr) == 1 and all(f.kind in ("if", "loop") for f in e.frames) and lfr[0].loop is not None \
+                    and lfr[0].loop.kind == "range" and lfr[0].loop.lo == 0 and lfr[0].loop.hi is not None \
+                    and fk.norm(lfr[0].loop.hi) == fk.norm(Lin.atom("this._ref_lvl")):
                 rv = fk.size(e.val_expr)
                 ref_fac = rv.c if rv is not None and rv.is_const() else None
-            elif e.get("op") is None and not e.frames:
+            elif e.get("op") is None and all(f.kind == "if" for f in e.frames):
                 v = fk.size(e.val_expr) if e.get("val_expr") is not None else e.val
                 base_ok = v is not None and fk.norm(v) == fk.norm(fk.fields.get("this._num_elems", Lin.atom("this._num_elems")))
         if factor is None or power is None or len(lvl) != 1 or ref_fac is None or not base_ok or len(re_set) != 2:
@@ -746,6 +765,193 @@ def rule_parti_level(w):
                   ref_fac, factor, render(lvl[0].val_expr)), fn.file, lvl[0].node.get("l"))
 
 
+# -------------------------------------------------------------------------------------------------
+# two-pointer merge of sorted index lists: every cursor is bounded by the length of its own list
+# -------------------------------------------------------------------------------------------------
+
+def _res(fk, n, depth=0):
+    """expression with single-assignment locals replaced by their initialisers (one level of sharing is enough for text comparison)"""
+    n = strip(n)
+    r = fk._resolve_local(n)
+    return strip(r) if r is not None else n
+
+
+def _own_length(fk, fn, base, loop_body_parent):
+    """('size', object text) / ('section', offset decl id) describing the length of the list `base` points to, or None"""
+    b = _res(fk, base)
+    if b is None:
+        return None
+    if b.get("k") == "MCall" and b.get("n") == "data" and not b.get("a"):
+        return ("size", render(_res(fk, b.get("obj"))))
+    if b.get("k") == "Un" and b.get("op") == "&":
+        sub = _subscript(b["e"])
+        if sub is not None:
+            ix = strip(sub[1])
+            if ix.get("k") == "Ref" and ix.get("dk") == "local":
+                return ("section", ix["d"])
+    if b.get("k") in ("Ref", "Member") and "vector" in (fn.ntype(b) or ""):
+        return ("size", render(b))
+    return None
+
+
+def rule_merge(w):
+    ck = w.ck
+    fns = w.find(r"Intern::PatchHaloSplitPart<.*>::intersect$")
+    if not fns:
+        ck.incomplete("E3.merge-bounds", "PatchHaloSplitPart::intersect not instantiated")
+    obs = {}
+    for fn in fns:
+        fk = w.fk(fn)
+        name = re.sub(r"<.*>::", "::", short(fn).split("(")[0]) + "(" + ",".join(p["n"] for p in fn.params) + ")"
+        merges = 0
+        for lp in walk(fn.body):
+            if lp.get("k") not in ("For", "While"):
+                continue
+            c = strip(lp.get("c"))
+            if c is None or c.get("k") != "Bin" or c.get("op") != "&&":
+                continue
+            parts = []
+            for side in (strip(c["lhs"]), strip(c["rhs"])):
+                if side.get("k") == "Bin" and side.get("op") == "<" and strip(side["lhs"]).get("k") == "Ref" and strip(side["lhs"]).get("dk") == "local":
+                    parts.append((strip(side["lhs"]), side["rhs"]))
+            if len(parts) != 2:
+                continue
+            # lists subscripted by exactly the cursor inside the body
+            cur = {}
+            conds = [y.get("c") for y in walk(lp.get("body")) if y.get("k") == "If" and y.get("c") is not None]
+            for x in (z for cnd in conds for z in walk(cnd)):       # the lists that are compared (merged), not payload arrays indexed alongside
+                if x.get("k") == "Cast":
+                    continue
+                sub = _subscript(x)
+                if sub is not None and strip(sub[1]).get("k") == "Ref":
+                    for v, bnd in parts:
+                        if strip(sub[1]).get("d") == v["d"]:
+                            cur.setdefault(v["d"], []).append(sub[0])
+            incs = {}
+            for x in walk(lp.get("body")):
+                t = _is_incdec(x)
+                if t and t[0].get("k") == "Ref":
+                    incs[t[0].get("d")] = incs.get(t[0].get("d"), 0) + 1
+            if not all(v["d"] in cur and incs.get(v["d"]) for v, b in parts):
+                continue          # not a merge of two indexed lists
+            merges += 1
+            own = {}
+            for v, bnd in parts:
+                lens = {(_own_length(fk, fn, b, lp)) for b in cur[v["d"]]}
+                own[v["d"]] = lens.pop() if len(lens) == 1 else None
+            for v, bnd in parts:
+                key = "%s/cursor %s" % (name, v["n"])
+                o = own[v["d"]]
+                other = [own[x["d"]] for x, _ in parts if x["d"] != v["d"]][0]
+                b = _res(fk, bnd)
+                if o is None:
+                    obs.setdefault(key, []).append((None, "length of the list subscripted by %s not recognised" % v["n"], fn.file, lp.get("l")))
+                    continue
+
+                def is_len(expr, ln):
+                    e = _res(fk, expr)
+                    if ln is None or e is None:
+                        return False
+                    if ln[0] == "size":
+                        return e.get("k") == "MCall" and e.get("n") == "size" and not e.get("a") and render(_res(fk, e.get("obj"))) == ln[1]
+                    # section of a buffer starting at `off`: its length is what `off` is advanced by afterwards
+                    advs = []
+                    for x in walk(fn.body):
+                        if x.get("k") == "Assign" and x.get("op") == "+=" and strip(x["lhs"]).get("k") == "Ref" and strip(x["lhs"]).get("d") == ln[1]:
+                            advs.append(strip(x["rhs"]))
+                    if not advs:
+                        return False
+                    bn = strip(expr)
+                    return all(a.get("k") == "Ref" and bn.get("k") == "Ref" and a.get("d") == bn.get("d") for a in advs) or \
+                        all(render(_res(fk, a)) == render(e) for a in advs)
+                if is_len(bnd, o):
+                    obs.setdefault(key, []).append((True, "cursor %s < %s, the length of the list it subscripts" % (v["n"], render(bnd)), fn.file, lp.get("l")))
+                    continue
+                # definite: the bound is the other list's length or a minimum involving lengths
+                definite = None
+                if is_len(bnd, other):
+                    definite = "the length of the OTHER list"
+                elif b.get("k") == "Call" and (b.get("callee") or "").rsplit("::", 1)[-1] == "min" and any(is_len(a, o) or is_len(a, other) for a in b.get("a", [])):
+                    definite = "a minimum of the two list lengths"
+                if definite:
+                    obs.setdefault(key, []).append((False, "cursor %s is bounded by %s (%s): matches beyond that position in its own list are never found when the lists have "
+                                                    "different lengths" % (v["n"], render(bnd), definite), fn.file, lp.get("l")))
+                else:
+                    obs.setdefault(key, []).append((None, "bound %s of cursor %s is not recognised as a list length" % (render(bnd), v["n"]), fn.file, lp.get("l")))
+        if merges == 0:
+            ck.incomplete("E3.merge-bounds", "%s: no two-cursor merge loop recognised" % name)
+    for key, lst in sorted(obs.items()):
+        bad = [x for x in lst if x[0] is False]
+        unk = [x for x in lst if x[0] is None]
+        if unk and not bad:
+            ck.incomplete("E3.merge-bounds", "%s: %s" % (key, unk[0][1]))
+            continue
+        pick = bad[0] if bad else lst[0]
+        ck.ob("E3.merge-bounds", key, not bad, pick[1], pick[2], pick[3])
+
+
+# -------------------------------------------------------------------------------------------------
+# the reused halo factory rebuilds every dimension's list on every path
+# -------------------------------------------------------------------------------------------------
+
+def rule_halo_rebuild(w):
+    ck = w.ck
+    # is one factory object reused for several neighbours?
+    reused = False
+    for fn in w.find(r"Geometry::RootMeshNode<.*>::extract_patch$"):
+        fk = w.fk(fn)
+        cons = [e for e in fk.events if e.kind == "call" and (e.callee or "").endswith("PatchHaloFactory") and "PatchHaloFactory<" in (e.callee or "")]
+        builds = [e for e in fk.events if e.kind == "call" and e.name == "build" and "PatchHaloFactory<" in (e.callee or "")]
+        for b in builds:
+            bl = [f for f in b.frames if f.kind == "loop"]
+            for c in cons:
+                cl = [f for f in c.frames if f.kind == "loop"]
+                if len(bl) > len(cl):
+                    reused = True
+    if not reused:
+        ck.note("E7.halo-rebuild: no PatchHaloFactory object is reused across neighbours; stale-state clause not applicable")
+        return
+
+    def must(fn, pred, what, key, keys=()):
+        cfg = fn.cfg
+        if cfg is None:
+            ck.incomplete("E7.halo-rebuild", "%s: no CFG" % key)
+            return
+        ok, bad = cfg.must_pass(pred)
+        if ok:
+            ck.ob("E7.halo-rebuild", key, True, "every path through %s passes %s" % (fn.name, what), fn.file, fn.line)
+            return
+        fk = w.fk(fn)
+        why = elsewhere(fk, keys, names=("build", "clear", "get_num_entities", "size"))
+        if why or fk.unknown:
+            ck.incomplete("E7.halo-rebuild", "%s: a path skips %s; %s" % (key, what, why or "unmodelled constructs"))
+            return
+        path = cfg.path_to(bad[0], avoid=()) if bad else None
+        ck.ob("E7.halo-rebuild", key, False, "a path through %s reaches the exit without %s (lines %s): the factory object is reused for every neighbour rank, so the list of "
+              "this dimension keeps the entities of the previously built halo" % (fn.name, what, [l for l in cfg.block_lines(path) if l][-4:] if path else "?"), fn.file, fn.line)
+
+    def is_call_on(member, meth):
+        def pred(n):
+            if n.get("k") != "MCall" or n.get("n") != meth:
+                return False
+            o = strip(n.get("obj"))
+            return o is not None and o.get("k") == "Member" and o.get("n") == member
+        return pred
+    for fn in w.find(r"Intern::PatchHaloBuildWrapper<.*>::build$"):
+        name = short(fn)
+        must(fn, is_call_on("_hbuild", "build"), "_hbuild.build(...)", name + "/_hbuild", keys=("this._hbuild",))
+        m = re.search(r"PatchHaloBuildWrapper<FEAT::Shape::\w+<\d>, (\d)>", fn.cls or "")
+        if m and int(m.group(1)) > 0:
+            def base_pred(n):
+                return n.get("k") in ("MCall", "Call") and re.search(r"PatchHaloBuildWrapper<.*>::build$", n.get("callee") or "") is not None and \
+                    (n.get("obj") is None or strip(n.get("obj")).get("k") in ("This", "Cast") or n.get("ccls") != fn.cls)
+            must(fn, base_pred, "the build of the lower dimensions (BaseClass::build)", name + "/lower-dimensions")
+    for fn in w.find(r"Geometry::PatchHaloFactory<.*>::build$"):
+        must(fn, is_call_on("_halo_wrapper", "build"), "_halo_wrapper.build(...)", short(fn) + "/_halo_wrapper", keys=("this._halo_wrapper",))
+    for fn in w.find(r"Intern::PatchHaloBuild<.*>::build$"):
+        must(fn, is_call_on("_indices", "clear"), "_indices.clear()", short(fn) + "/_indices.clear", keys=("this._indices",))
+
+
 def run(tier):
     ck = Check("C12", tier)
     ck.rule("E1.member-binding", "the halo builders are wired to the right sets: PatchHaloBuild<Shape,codim> binds the patch part's target set of the face dimension and the "
@@ -768,6 +974,12 @@ def run(tier):
     ck.rule("E9.parti-level", "Parti2Lvl: whenever success() is true (ranks = #elems * factor^power) the refined element count #elems * ref_fac^_ref_lvl is a multiple of the "
             "rank count - decided by folding the level formula for power = 0..12 with the shape's constants (a level rounded down yields empty patches for power not a multiple "
             "of the dimension)", 1)
+    ck.rule("E3.merge-bounds", "PatchHaloSplitPart::intersect merges two ascending index lists with two cursors: each cursor is bounded by the length of the list it "
+            "subscripts (a container's size(), or the amount the buffer offset is advanced by for a buffer section); a bound by the other length / the minimum loses the "
+            "matches of the longer list", 2)
+    ck.rule("E7.halo-rebuild", "extract_patch reuses one PatchHaloFactory for all neighbour ranks, so every path through PatchHaloFactory::build, every "
+            "PatchHaloBuildWrapper<.,d>::build and PatchHaloBuild::build must rebuild (clear) the list of its dimension and of the lower dimensions "
+            "(an early return leaves the previous neighbour's entities in the halo)", 9)
     ck.rule("E12.bcast-agree", "PartiIterative::build_elems_at_rank: sending and receiving branch broadcast identical counts into sufficiently long arrays and build graphs of identical dimensions", 1)
     ck.rule("E7.parti-precond", "PartiIterative checks num_patches > 0 and num_elems >= num_patches before drawing distinct centre cells", 2)
     w = World(ck, tier)
@@ -777,6 +989,8 @@ def run(tier):
     rule_parti(w)
     rule_neighbour_dim(w)
     rule_parti_level(w)
+    rule_merge(w)
+    rule_halo_rebuild(w)
     ck.assume("TargetSet: entries are indices of the parent (base) mesh entities, one per part entity; IndexSet(i,j): i < get_num_entities(), value < get_index_bound(); "
               "Graph accessor contracts as in C19")
     ck.assume("documented parameter roles: tsh = target set holder of the patch mesh part (into the base mesh), ish = index set holder of the base mesh, ranks_at_elem = one node per "
